@@ -1,135 +1,377 @@
 """C19: text pseudo-classes see exactly the character data CSS/HTML count as content."""
 import json
 import random
+import re
 import warnings
+from collections import Counter
 
 import bs4
 import soupsieve as sv
 
 import enc
 import gen
+import matchcorr
 from props import common_match
 
 warnings.simplefilter('ignore')
 PID = 'C19'
 SOURCES = ['SoupVerif/Properties/C19.lean', 'SoupVerif/Spec/Text.lean', 'SoupVerif/Model/TextWalk.lean', 'SoupVerif/Lemmas/Text.lean',
            'SoupVerif/Model/Match.lean']
-RULE = ('API-built trees with every interleaving of text, comment, CDATA, processing-instruction, doctype, declaration and element '
-        'nodes at any depth (parsers cannot produce all of them everywhere), nested iframes, as html / html5 / xhtml / xml; '
-        'search strings that span node boundaries, are empty, occur only inside special nodes, contain quotes / commas / '
-        'escapes; :-soup-contains, :-soup-contains-own, :contains, both in one compound, and :empty. Checked on PY against '
-        'an independent structural text extraction (the property) and PY = Lean matcher model. Non-trivial = non-empty result.')
+RULE = ('(1) API-built trees with every interleaving of text, comment, CDATA, processing-instruction, doctype, declaration and element '
+        'nodes at any depth (parsers cannot produce all of them everywhere), including the SUBCLASSES of the string node classes '
+        '(XMLProcessingInstruction, Script, Stylesheet, TemplateString, Ruby*String, application-defined subclasses of each markup '
+        'class and of NavigableString), nested iframes, as html / html5 / xhtml / xml; (2) the same kind of trees serialised to '
+        'markup and PARSED by lxml-xml (plain XML and XHTML; comments, CDATA sections and processing instructions inside '
+        'elements), html.parser, lxml and html5lib (script / style / template / ruby / textarea / iframe content, PIs, CDATA, '
+        'declarations, doctypes inside elements). Search strings that span node boundaries, are empty, occur only inside special '
+        'nodes, contain quotes / commas / escapes; :-soup-contains, :-soup-contains-own, :contains, both in one compound, and '
+        ':empty. Checked on PY against an independent structural text extraction over the tree (the property: a string node is '
+        'text unless it is a comment, CDATA, PI, declaration or doctype, by class membership), for XML parses additionally '
+        'against an extraction from the SOURCE tree that was serialised (no bs4 class consulted), and PY = Lean matcher model. '
+        'Non-trivial = non-empty result.')
 
 WORDS = ['ab', 'a', 'b', 'x y', '', ' ', 'zz', 'a"b', "c'd", 'p,q', '\n', 'b a',
          # blank for CSS (space, tab, LF, FF, CR) vs blank only for Python's str.strip / \s: the latter is content
          '\t\r\f', '\xa0', '\u2003', '\u3000', '\x0b', '\x1c', '\x85', '\u2028', ' \xa0 ']
+# what an XML document can carry unchanged (no C0 controls but tab / LF; CR would be normalised to LF)
+XML_WORDS = [w for w in WORDS if all(ch in '\t\n' or ord(ch) >= 0x20 for ch in w)] + [' \t\n']
 KINDS = ['t', 't', 't', 'c', 'cd', 'pi', 'dt', 'dc']
+# API-built trees: the base classes and their subclasses (parser-created and application-defined)
+API_KINDS = ['t', 't', 't', 't', 'ut', 'sc', 'st', 'tp', 'rts', 'rps',
+             'c', 'cd', 'pi', 'dt', 'dc', 'xpi', 'xpi', 'uc', 'ucd', 'upi', 'udt', 'udc']
+XML_KINDS = ['t', 't', 't', 'c', 'cd', 'pi', 'pi']                  # what may stand inside an element in XML markup
+NAMES = ['div', 'p', 'span', 'iframe', 'IFRAME', 'b']
+HTML_NAMES = ['div', 'p', 'span', 'b', 'iframe', 'script', 'style', 'template', 'ruby', 'rt', 'rp', 'textarea', 'pre']
+MARKUP_CLASSES = (bs4.Comment, bs4.CData, bs4.ProcessingInstruction, bs4.Declaration, bs4.Doctype)   # the property's list
 
 
-def tree(r, depth=0):
+def tree(r, depth=0, kinds=KINDS, words=WORDS, names=NAMES):
     kids = []
     for _ in range(r.randint(0, 4) if depth else r.randint(1, 4)):
         x = r.random()
         if x < 0.45:
-            kids.append((r.choice(KINDS), r.choice(WORDS)))
+            kids.append((r.choice(kinds), r.choice(words)))
         elif depth < 3:
-            kids.append(tree(r, depth + 1))
-    name = r.choice(['div', 'p', 'span', 'iframe', 'IFRAME', 'b'])
+            kids.append(tree(r, depth + 1, kinds, words, names))
+    name = r.choice(names)
     return ('e', name, None, None, [], kids)
 
 
-def chain_tree(r):
+def chain_tree(r, kinds=None, words=WORDS):
     """An iframe that ends a chain of last children k levels deep, with text following further up: where the walk resumes
     after a skipped iframe is decided by what follows it in document order, at any distance."""
+    kinds = kinds or API_KINDS
     inner = ('e', r.choice(['iframe', 'IFRAME']), None, None, [], r.choice([[], [('t', 'zz')], [('e', 'p', None, None, [], [('t', 'ab')])]]))
     node = inner
     for _ in range(r.randint(0, 3)):
-        before = [(r.choice(KINDS), r.choice(WORDS)) for _ in range(r.randint(0, 2))]
+        before = [(r.choice(kinds), r.choice(words)) for _ in range(r.randint(0, 2))]
         node = ('e', r.choice(['div', 'p', 'span', 'b']), None, None, [], before + [node])
     after = [r.choice([('t', r.choice(['ab', 'b', 'zz', 'x y'])), ('e', 'span', None, None, [], [('t', r.choice(['ab', 'a', 'zz']))]),
                        ('c', 'ab')]) for _ in range(r.randint(0, 2))]
-    return ('e', 'div', None, None, [], [(r.choice(KINDS), r.choice(WORDS)) for _ in range(r.randint(0, 1))] + [node] + after)
+    return ('e', 'div', None, None, [], [(r.choice(kinds), r.choice(words)) for _ in range(r.randint(0, 1))] + [node] + after)
 
 
-def text_of(node, cut_iframes, xml, top=True):
-    """Independent oracle: concatenation of plain text nodes among the descendants, not entering iframes."""
+# ---------------------------------------------------------------------------------------------
+# markup: the abstract tree written out for a parser
+# ---------------------------------------------------------------------------------------------
+def xml_markup(nodes):
     out = []
-    for c in node.contents:
-        if isinstance(c, bs4.Tag):
-            is_iframe = (c.name if xml else c.name.lower()) == 'iframe'
-            if not (cut_iframes and is_iframe):
-                out.append(text_of(c, cut_iframes, xml, False))
-        elif type(c) is bs4.NavigableString:
-            out.append(str(c))
+    for n in nodes:
+        if n[0] == 'e':
+            inner = xml_markup(n[5])
+            out.append(f'<{n[1]}>{inner}</{n[1]}>' if inner else f'<{n[1]}/>')
+        elif n[0] == 't':
+            out.append(gen.esc_text(n[1]))
+        elif n[0] == 'c':
+            out.append('<!--' + n[1] + '-->')
+        elif n[0] == 'cd':
+            out.append('<![CDATA[' + n[1] + ']]>')
+        elif n[0] == 'pi':
+            # the word is the target when it can be one (so that text + PI can spell a search string), else the data
+            out.append('<?' + (n[1] if re.fullmatch('[a-z]+', n[1]) else 'k ' + n[1]) + '?>')
+        else:
+            raise ValueError(n[0])
     return ''.join(out)
 
 
-def own_texts(node):
-    return [str(c) for c in node.contents if type(c) is bs4.NavigableString]
+def html_markup(nodes):
+    out = []
+    for n in nodes:
+        if n[0] == 'e':
+            out.append(f'<{n[1]}>{html_markup(n[5])}</{n[1]}>')
+        elif n[0] == 't':
+            out.append(gen.esc_text(n[1]))
+        elif n[0] == 'c':
+            out.append('<!--' + n[1] + '-->')
+        elif n[0] == 'cd':
+            out.append('<![CDATA[' + n[1] + ']]>')
+        elif n[0] == 'pi':
+            out.append('<?' + n[1] + '>')
+        elif n[0] == 'dt':
+            out.append('<!DOCTYPE ' + n[1] + '>')
+        elif n[0] == 'dc':
+            out.append('<![k ' + n[1] + ']>')
+        else:
+            raise ValueError(n[0])
+    return ''.join(out)
+
+
+def E(name, kids):
+    return ('e', name, None, None, [], kids)
+
+
+def parsed_doc(r, target):
+    """(markup, parser, source tree or None).  The source tree is returned when the parse is faithful (XML)."""
+    if target in ('xml', 'xhtml'):
+        body = [chain_tree(r, XML_KINDS, XML_WORDS) if r.random() < 0.25 else tree(r, 0, XML_KINDS, XML_WORDS, NAMES)
+                for _ in range(r.choice([1, 1, 2]))]
+        if r.random() < 0.3:
+            body.insert(r.randint(0, len(body)), (r.choice(XML_KINDS), r.choice(XML_WORDS)))
+        prolog = '<?xml version="1.0"?>' + r.choice(['', '', '<?xml-stylesheet href="ab"?>', '<!--ab-->'])
+        if target == 'xml':
+            src = [E('root', body)]
+            return prolog + xml_markup(src) + r.choice(['', '', '<?ab zz?>']), 'xml', src
+        src = [E('html', [E('head', []), E('body', body)])]
+        m = xml_markup(src).replace('<html>', f'<html xmlns="{gen.XHTML}">', 1)
+        return prolog + m, 'xml', src
+    body = [chain_tree(r, KINDS, WORDS) if r.random() < 0.25 else tree(r, 0, KINDS, WORDS, HTML_NAMES)
+            for _ in range(r.choice([1, 1, 2]))]
+    if r.random() < 0.3:
+        body.insert(r.randint(0, len(body)), (r.choice(KINDS), r.choice(WORDS)))
+    return f'<!DOCTYPE html><html><head></head><body>{html_markup(body)}</body></html>', target, None
+
+
+# ---------------------------------------------------------------------------------------------
+# the property, evaluated over a "view" of a tree: children are ('e', node) | ('t', string) | ('x', None)
+# ---------------------------------------------------------------------------------------------
+class TreeView:
+    """The bs4 tree itself: a string node is text unless it belongs to one of the five markup classes."""
+    @staticmethod
+    def name(n):
+        return n.name
+
+    @staticmethod
+    def kids(n):
+        out = []
+        for c in n.contents:
+            if isinstance(c, bs4.Tag):
+                out.append(('e', c))
+            elif isinstance(c, bs4.NavigableString) and not isinstance(c, MARKUP_CLASSES):
+                out.append(('t', str(c)))
+            else:
+                out.append(('x', None))
+        return out
+
+
+class SourceView:
+    """The source tree that was written out as XML: character data and CDATA sections are the text, comments and PIs are
+    not.  No bs4 class is consulted.  What Beautiful Soup's tree building does with character data is followed: adjacent
+    pieces (text, CDATA sections) arrive as one text node, an empty text piece not at all, and a node made only of ASCII
+    white space is stored as a single LF (if it has one) or a single space (BeautifulSoup.endData)."""
+    @staticmethod
+    def name(n):
+        return n[1]
+
+    @staticmethod
+    def kids(n):
+        out = []
+        run = None
+
+        def flush():
+            if run is not None:
+                t = ''.join(run)
+                if all(ch in ' \t\n\f\r' for ch in t):
+                    t = '\n' if '\n' in t else ' '
+                out.append(('t', t))
+        for c in n[5]:
+            if c[0] in ('t', 'cd'):
+                if c[0] == 'cd' or c[1] != '':
+                    run = (run or []) + [c[1]]
+                continue
+            flush()
+            run = None
+            out.append(('e', c) if c[0] == 'e' else ('x', None))
+        flush()
+        return out
+
+    @classmethod
+    def elements(cls, nodes):
+        out = []
+        for n in nodes:
+            if n[0] == 'e':
+                out.append(n)
+                out.extend(cls.elements(n[5]))
+        return out
+
+
+class Oracle:
+    def __init__(self, view, xml, is_html):
+        self.view, self.xml, self.is_html = view, xml, is_html
+
+    def is_iframe(self, n):
+        # HTML namespace: every element when there is no namespace support, the XHTML namespace otherwise (all generated
+        # elements of html5 / xhtml documents are in it)
+        name = self.view.name(n)
+        return self.is_html and (name if self.xml else name.lower()) == 'iframe'
+
+    def text(self, n):
+        """Concatenation of the text nodes among the descendants in document order, not entering iframes in HTML."""
+        if self.is_iframe(n):
+            return ''
+        return ''.join(self.text(c) if k == 'e' else c if k == 't' else '' for k, c in self.view.kids(n))
+
+    def own(self, n):
+        return [] if self.is_iframe(n) else [c for k, c in self.view.kids(n) if k == 't']
+
+    def empty(self, n):
+        return not any(k == 'e' or (k == 't' and any(ch not in ' \t\r\n\f' for ch in c)) for k, c in self.view.kids(n))
+
+    def holds(self, n, q):
+        form, ws, w2 = q['form'], q['ws'], q.get('w2')
+        if form in ('c', 'alias'):
+            t = self.text(n)
+            return any(w in t for w in ws)
+        if form == 'own':
+            return any(w in t for w in ws for t in self.own(n))
+        if form in ('both', 'both2'):
+            t = self.text(n)
+            return any(w in t for w in ws) and any(w2 in t for t in self.own(n))
+        return self.empty(n)
+
+
+def selector_of(q):
+    lst = ', '.join(gen.q(w) for w in q['ws'])
+    form = q['form']
+    if form == 'c':
+        return f':-soup-contains({lst})'
+    if form == 'alias':
+        return f':contains({lst})'
+    if form == 'own':
+        return f':-soup-contains-own({lst})'
+    if form in ('both', 'both2'):
+        a, b = f':-soup-contains({lst})', f':-soup-contains-own({gen.q(q["w2"])})'
+        return a + b if form == 'both' else b + a
+    return ':empty'
+
+
+def html_semantics(kind):
+    return kind != 'xml' and kind != 'parsed:xml'
+
+
+def judge(soup, case):
+    """Evaluate the property on one case.  Returns a list of problem descriptions (empty = holds)."""
+    q, kind = case['oracle'], case['kind']
+    xml = bool(soup._is_xml)
+    els = gen.elements(soup)
+    problems = []
+    try:
+        got = [id(e) for e in sv.select(case['selector'], soup)]
+    except Exception as e:
+        return [{'exception': repr(e)}], els, None
+    o = Oracle(TreeView, xml, html_semantics(kind))
+    want = [id(e) for e in els if o.holds(e, q)]
+    if got != want:
+        pos = {id(e): i for i, e in enumerate(els)}
+        problems.append({'oracle': 'tree', 'got_elements': [pos.get(i) for i in got], 'want_elements': [pos[i] for i in want]})
+    if case.get('source'):
+        src_els = SourceView.elements(matchcorr._untuple(case['source']))
+        if len(src_els) == len(els) and all(a[1] == b.name for a, b in zip(src_els, els)):
+            so = Oracle(SourceView, xml, html_semantics(kind))
+            swant = [id(e) for s, e in zip(src_els, els) if so.holds(s, q)]
+            if got != swant:
+                pos = {id(e): i for i, e in enumerate(els)}
+                problems.append({'oracle': 'source', 'got_elements': [pos.get(i) for i in got], 'want_elements': [pos[i] for i in swant]})
+        else:
+            problems.append(None)       # the parse is not the tree that was written: counted, the source oracle is not applied
+    return problems, els, want
+
+
+def doc_words(soup):
+    """Search strings taken from the document: a string node (text or markup) or a piece of one, and the two characters
+    on either side of a boundary between consecutive string nodes in document order."""
+    strs = [str(d) for d in soup.descendants if isinstance(d, bs4.NavigableString) and str(d)]
+    out = []
+    for i, t in enumerate(strs):
+        out.append(t if len(t) <= 6 else t[:3])
+        out.append(t[-2:])
+        if i + 1 < len(strs):
+            out.append(t[-1] + strs[i + 1][0])
+    return out
 
 
 def make_cases_factory(state):
     def make_cases(rng, n):
         cases = []
         while len(cases) < n:
-            kind = rng.choice(['html', 'html5', 'xhtml', 'xml'])
-            top = [chain_tree(rng) if rng.random() < 0.25 else tree(rng)]
-            soup = gen.build_doc(kind, top)
-            xml = bool(soup._is_xml)
-            is_html = (not xml) or kind == 'xhtml'
-            els = gen.elements(soup)
+            if rng.random() < 0.5:
+                kind = rng.choice(['html', 'html5', 'xhtml', 'xml'])
+                top = [chain_tree(rng) if rng.random() < 0.25 else tree(rng, 0, API_KINDS)]
+                base = {'kind': kind, 'tree': top}
+            else:
+                target = rng.choice(['xml', 'xml', 'xhtml', 'xhtml', 'html.parser', 'lxml', 'html5lib'])
+                markup, parser, src = parsed_doc(rng, target)
+                base = {'kind': 'parsed:' + target, 'markup': markup, 'parser': parser}
+                if src is not None:
+                    base['source'] = src
+            try:
+                soup = matchcorr.materialise(base)
+            except bs4.exceptions.ParserRejectedMarkup:
+                state['rejected_markup'] += 1
+                continue
+            state['docs'][base['kind']] += 1
+            for d in soup.descendants:
+                if not isinstance(d, bs4.Tag):
+                    state['classes'][type(d).__name__] += 1
+            local = doc_words(soup)
             for _ in range(4):
-                ws = rng.sample(WORDS, rng.randint(1, 2))
-                lst = ', '.join(gen.q(w) for w in ws)
-                form = rng.choice(['c', 'own', 'alias', 'both', 'both2', 'empty'])
+                def word():
+                    return rng.choice(local) if local and rng.random() < 0.5 else rng.choice(WORDS)
+                ws = [word() for _ in range(rng.randint(1, 2))]
+                q = {'form': rng.choice(['c', 'own', 'alias', 'both', 'both2', 'empty']), 'ws': ws[:1] + [w for w in ws[1:] if w != ws[0]]}
+                if q['form'] in ('both', 'both2'):
+                    q['w2'] = word()
+                case = dict(base, selector=selector_of(q), oracle=q, queries=[('select', [], 0)])
                 state['checks'] += 1
-
-                def is_iframe_el(e):
-                    if (e.name if xml else e.name.lower()) != 'iframe':
-                        return False
-                    return is_html       # HTML namespace: every element when there is no namespace support, XHTML ns otherwise
-
-                def T(e):
-                    if is_html and is_iframe_el(e):
-                        return ''
-                    return text_of(e, is_html, xml)
-                if form == 'c' or form == 'alias':
-                    sel = (':-soup-contains(' if form == 'c' else ':contains(') + lst + ')'
-                    want = [id(e) for e in els if any(w in T(e) for w in ws)]
-                elif form == 'own':
-                    sel = f':-soup-contains-own({lst})'
-                    want = [id(e) for e in els if not (is_html and is_iframe_el(e)) and any(w in t for w in ws for t in own_texts(e))]
-                elif form in ('both', 'both2'):
-                    w2 = rng.choice(WORDS)
-                    a, b = f':-soup-contains({lst})', f':-soup-contains-own({gen.q(w2)})'
-                    sel = a + b if form == 'both' else b + a
-                    want = [id(e) for e in els if any(w in T(e) for w in ws)
-                            and not (is_html and is_iframe_el(e)) and any(w2 in t for t in own_texts(e))]
-                else:
-                    sel = ':empty'
-                    want = [id(e) for e in els if not any(isinstance(c, bs4.Tag) for c in e.contents)
-                            and not any(type(c) is bs4.NavigableString and any(ch not in ' \t\r\n\f' for ch in str(c)) for c in e.contents)]
-                try:
-                    got = [id(e) for e in sv.select(sel, soup)]
-                except Exception as e:
-                    state['bad'].append({'selector': sel, 'kind': kind, 'tree': top, 'exception': repr(e)})
-                    continue
-                # iframe elements in html5/xhtml are in the XHTML namespace (built that way); in 'html' there is no ns support
-                if got != want:
-                    state['bad'].append({'selector': sel, 'kind': kind, 'tree': top, 'got': len(got), 'want': len(want)})
-                cases.append({'kind': kind, 'tree': top, 'selector': sel, 'queries': [('select', [], 0)]})
+                problems, els, want = judge(soup, case)
+                if 'source' in case:
+                    state['src_skipped' if None in problems else 'src_checks'] += 1
+                problems = [p for p in problems if p is not None]
+                if want is not None and q['form'] != 'empty':
+                    # would the answer differ if every string node counted as text?  (the instances that tell the node kinds apart)
+                    lo = Oracle(AllStringsView, bool(soup._is_xml), html_semantics(case['kind']))
+                    if want != [id(e) for e in els if lo.holds(e, q)]:
+                        state['kind_sensitive'] += 1
+                for p in problems:
+                    state['bad'].append({'case': case, **p})
+                cases.append(case)
         return cases[:n]
     return make_cases
 
 
+class AllStringsView(TreeView):
+    """Not the property: every string node taken as text.  Only used to count how many instances depend on the node kind."""
+    @staticmethod
+    def kids(n):
+        return [('e', c) if isinstance(c, bs4.Tag) else ('t', str(c)) for c in n.contents]
+
+
 def run(chk):
-    state = {'checks': 0, 'bad': []}
+    state = {'checks': 0, 'bad': [], 'docs': Counter(), 'classes': Counter(), 'src_checks': 0, 'src_skipped': 0, 'kind_sensitive': 0, 'rejected_markup': 0}
     orig = chk.finish
 
     def finish(**kw):
-        chk.coverage.update({'oracle_instances': state['checks'], 'oracle_violations': len(state['bad'])})
+        chk.coverage.update({'oracle_instances': state['checks'], 'oracle_violations': len(state['bad']),
+                             'oracle_violations_by_origin': dict(Counter(b['case']['kind'] + '/' + b.get('oracle', 'exception')
+                                                                         for b in state['bad'])),
+                             'oracle_documents_by_origin': dict(state['docs']),
+                             'string_node_classes_in_documents': dict(state['classes'].most_common()),
+                             'source_oracle_instances': state['src_checks'],
+                             'source_oracle_not_applicable': state['src_skipped'],
+                             'markup_rejected_by_parser': state['rejected_markup'],
+                             'instances_whose_answer_depends_on_node_kind': state['kind_sensitive']})
         for i, b in enumerate(state['bad'][:5]):
-            chk.violation(f'text{i}', {'what': 'text pseudo-class differs from the structural definition of content', **b}, concrete=True)
+            chk.violation(f'text{i}', {'what': 'text pseudo-class differs from the structural definition of content', **b,
+                                       'replay_with': f'bin/check {PID} --replay <this file>'}, concrete=True)
         return orig(**kw)
     chk.finish = finish
     return common_match.run(chk, PID, SOURCES, make_cases_factory(state), 1600, 80000, RULE,
@@ -137,4 +379,14 @@ def run(chk):
 
 
 def replay(chk, path):
-    return common_match.replay(chk, path, PID)
+    rc = common_match.replay(chk, path, PID)
+    case = json.load(open(path))['case']
+    if 'oracle' in case and 'kind' in case:
+        problems, _, _ = judge(matchcorr.materialise(case), case)
+        problems = [p for p in problems if p is not None]
+        print(json.dumps({'property_oracle': problems or 'holds'}, default=repr))
+        if problems:
+            if rc == 0:
+                print(f'VIOLATION property={PID} replay={path}')
+            rc = 1
+    return rc
